@@ -3,7 +3,7 @@
 import glob, json, os, re, shutil
 OUT = "/verif/seeded"
 DUP = {("C06", "1"): "C06-r2-1"}
-NOTE = {("C19", "1"): "variant of C19-r2-1 (`<` instead of `<=` on the middle vertex row)"}
+NOTE = {("C19", "1"): "variant of C19-r2-1 (`<` instead of `<=` on the middle vertex row); missed by the 4x4 grid harness, refuted by c19_triangle_row_is_hull_of_all_edges written for it"}
 for d in sorted(glob.glob("/tmp/seed-out3/C*/[0-9]")):
     prop, n = d.split("/")[-2], d.split("/")[-1]
     if (prop, n) in DUP:
